@@ -89,6 +89,14 @@ def rand_spec(rnd, tier="quick", zones=None, jobless_ok=True, server_types=("aut
         O["upi"] = obj("UsagePattern", usage_journey=["ref", "uji"], network=["ref", "ni"], country=["ref", "c0"], devices=["refs", ["d0"]],
                        hourly_usage_journey_starts=["h", [rnd.choice(START_VALUES[2:]) for _ in range(9)], rnd.choice(STARTS), "dimensionless"])
         ups_.append("upi")
+    if rnd.random() < 0.15:
+        # a job that deletes data, on a storage that starts with enough data to delete
+        js = [n for n in O if O[n]["cls"] == "Job"]
+        if js:
+            j = rnd.choice(js)
+            st = O[O[j]["params"]["server"][1]]["params"]["storage"][1]
+            O[j]["params"]["data_stored"] = q(-rnd.choice([137, 2371]), "kB")
+            O[st]["params"]["base_storage_need"] = q(rnd.choice([50.37, 500.37]), "TB")
     if rnd.random() < 0.3:
         # draft jobs: created on a server of the model for later use, called by no step yet
         for k in range(rnd.randint(1, 3)):
@@ -198,6 +206,8 @@ def topo_classes(spec):
         tags.add("island_pattern")
     if any(n.startswith("jd") for n in O):
         tags.add("draft_job")
+    if any(o["cls"] == "Job" and o["params"].get("data_stored", ["q", 0])[1] < 0 for o in O.values()):
+        tags.add("deleting_job")
     wins = sorted(window_utc(spec, up) for up in ups)
     for (a0, a1), (b0, b1) in zip(wins, wins[1:]):
         if b0 > a1 + timedelta(hours=14):
